@@ -1092,7 +1092,7 @@ def estimate_sky(
     im : np.array
         image, either an array or masked array
     mask : Optional[np.array], optional
-        mask to apply, if im is not a masked array already, by default None
+        mask to apply (combined with the mask of im if im is a masked array already), by default None
     n_pix_sample : int, optional
         number of pixels around the edge to use, by default 5
 
@@ -1101,7 +1101,8 @@ def estimate_sky(
     Tuple[float,float,int]
         a tuple containing the median, standard deviation and number of pixels used
     """
-    if not np.ma.is_masked(image) and mask is not None:
+    if mask is not None:
+        # keep_mask=True (numpy's default) combines this with any mask the image already carries
         image = np.ma.masked_array(image, mask)
     # np.concatenate drops the mask of masked arrays: use the masked version
     # and keep only the unmasked pixels
